@@ -161,7 +161,7 @@ def plan(run):
         for j, w in enumerate(wins):
             cli = j % 7 == 3        # through the command line interface (no detection option there: the default)
             cases.append({'src': si, 'w': list(w), 'iops': bool(j % 2), 'mode': 'heuristic' if cli else (('heuristic', 'thorough', 'exhaustive', 'strip')[j % 4] if j % 3 else 'thorough'),
-                          'rate': (16, 8, 32)[j % 3], 'bs': None if j % 3 < 2 else (8, 8, 16), 'cli': cli})
+                          'rate': (16, 8, 32, 32, 32)[j % 5], 'bs': (None, None, (8, 8, 16), (4, 8, 32), (16, 16, 4))[j % 5], 'cli': cli})
     return cases
 
 
